@@ -172,7 +172,7 @@ func runC12(p *C12Plan) (*stats.Case, error) {
 	model := map[string]*whModel{}
 	order := []string{}
 	crossed, resetBetween := false, false
-	notifies := 0
+	notifies, pauses := 0, 0
 	event := map[string]any{"operation": "ADD", "header": map[string]any{"height": 7, "hash": "00ff"}}
 	for i, op := range p.Ops {
 		where := fmt.Sprintf("op %d %+v (max_tries %d)", i, op, p.MaxTries)
@@ -225,6 +225,10 @@ func runC12(p *C12Plan) (*stats.Case, error) {
 			} else if resp.Code != 404 {
 				return nil, fmt.Errorf("%s: deleting an unknown webhook answered %d %s", where, resp.Code, resp.Body)
 			}
+		case "pause":
+			// time passes between two attempts: the reported time of the last attempt must move with the attempts
+			time.Sleep(1200 * time.Millisecond)
+			pauses++
 		case "restart":
 			if err := s.Reopen(); err != nil {
 				return nil, fmt.Errorf("%s: restart failed: %v", where, err)
@@ -357,12 +361,13 @@ func runC12(p *C12Plan) (*stats.Case, error) {
 				if w.LastEmitStatus == "" || (m.lastCode != "" && !strings.Contains(w.LastEmitStatus, m.lastCode)) {
 					return nil, fmt.Errorf("%s: webhook %s reports lastEmitStatus %q after %d attempts (last outcome %q)", where, u2, w.LastEmitStatus, m.attempts, m.lastCode)
 				}
-				if w.LastEmitTimestamp.Before(m.lastAt.Add(-2*time.Second)) || w.LastEmitTimestamp.After(time.Now().Add(2*time.Second)) {
+				if w.LastEmitTimestamp.Before(m.lastAt.Add(-1*time.Second)) || w.LastEmitTimestamp.After(time.Now().Add(2*time.Second)) {
 					return nil, fmt.Errorf("%s: webhook %s reports lastEmitTimestamp %v, last attempt at %v", where, u2, w.LastEmitTimestamp, m.lastAt)
 				}
 			}
 		}
 	}
+	_ = pauses
 	cl := map[string]int64{"sequences": 1, "ops": int64(len(p.Ops)), "notifies": int64(notifies), "real_client": b2i(p.Real),
 		"with_threshold_crossed_after_ge2": b2i(crossed), "with_reset_between_failures": b2i(resetBetween)}
 	return &stats.Case{Sig: stats.Sig(p.MaxTries, p.Real, fmt.Sprint(p.Outcomes), fmt.Sprint(p.Ops)), Nontrivial: crossed || resetBetween, Classes: cl, Sample: p}, nil
@@ -430,6 +435,13 @@ var propC12 = Prop[*C12Plan]{
 			op.URL = rapid.IntRange(0, 3).Draw(t, "url")
 			op.Auth = rapid.IntRange(0, 2).Draw(t, "auth")
 			p.Ops = append(p.Ops, op)
+		}
+		if rapid.IntRange(0, 15).Draw(t, "pausek") == 0 && n >= 4 {
+			// one pause of 1.2 s somewhere in the middle, followed by a delivery and a query
+			at := rapid.IntRange(1, n-2).Draw(t, "pauseat")
+			u := rapid.IntRange(0, 3).Draw(t, "pauseurl")
+			ins := []WhOp{{Kind: "pause"}, {Kind: "notify", URL: u}, {Kind: "query", URL: u}}
+			p.Ops = append(p.Ops[:at], append(ins, p.Ops[at:]...)...)
 		}
 		return p
 	},
